@@ -94,6 +94,12 @@ def judge(ctx, sc, im):
         if op['k'] != 'battery':
             continue
         args = {a: v for a, v in op.items() if a != 'k'}
+        if isinstance(im[k], dict):
+            for x in im[k]['scope'].get('synsets_x', []):
+                if x.get('_target_ili_bad'):
+                    ctx.fail('a-relation-target(stored-or-placeholder)-carries-the-ILI-it-was-mapped-by', sc,
+                             {'args': args, 'source': x['ref'], '[target, ili property]': x['_target_ili_bad']})
+                    break
         inst = multi.installed_after(sc, im, k)
         d = dict(inst)
         default_mode = not args.get('lexicon') and not args.get('lang')
